@@ -3,6 +3,8 @@ package props
 import (
 	"encoding/json"
 	"fmt"
+	"go/token"
+	"go/types"
 	"os"
 	"path/filepath"
 	"strings"
@@ -11,10 +13,13 @@ import (
 	"testing"
 	"time"
 
+	"github.com/goplus/gogen"
 	"pgregory.net/rapid"
 
+	"verif/h/drive"
 	"verif/h/gen"
 	"verif/h/hx"
+	"verif/h/oracle"
 )
 
 // ---- C17: every operation terminates promptly and never fails with a run-time fault -----------
@@ -259,9 +264,26 @@ func TestC17(t *testing.T) {
 			}
 			return time.Duration(ru.Utime.Nano() + ru.Stime.Nano())
 		}
-		for kind := 0; kind < 10; kind++ {
+		for kind := 0; kind < 11; kind++ {
+			sizes := []int{400, 1600}
+			if kind == 10 {
+				sizes = []int{13, 26} // layers of a diamond embedding: a search by path instead of by type is 2^n
+			}
 			measure := func(report bool) (ts [2]time.Duration) {
-				for i, n := range []int{400, 1600} {
+				for i, n := range sizes {
+					if kind == 10 {
+						// built through the API: go/types' own validity check of the declarations (validType,
+						// go1.23) is exponential on this shape, so the source cannot go through the oracle
+						c17Current(r, &progCase{Files: []string{gen.HostileNest(kind, n)}, Note: fmt.Sprintf("scaling kind=%d n=%d (built through the API)", kind, n)})
+						t0 := cpu()
+						fault := c17Diamond(n)
+						ts[i] = cpu() - t0
+						r.Eval()
+						if report && fault != "" {
+							r.Report(&progCase{Files: []string{gen.HostileNest(kind, n)}, Note: "diamond embedding, built through the API"}, "diamond-fault", "%s", fault)
+						}
+						continue
+					}
 					c := &progCase{Files: []string{gen.HostileNest(kind, n)}, Note: fmt.Sprintf("scaling kind=%d n=%d", kind, n)}
 					c17Current(r, c)
 					t0 := cpu()
@@ -281,10 +303,41 @@ func TestC17(t *testing.T) {
 			}
 			r.Class("scaling-family")
 			if slow(ts) {
-				c := &progCase{Files: []string{gen.HostileNest(kind, 1600)}, Note: fmt.Sprintf("scaling kind=%d", kind)}
-				r.Report(c, "superlinear", "nesting family %d: n=400 took %v CPU, n=1600 took %v CPU in three measurements (more than x160 for x4)", kind, ts[0], ts[1])
+				c := &progCase{Files: []string{gen.HostileNest(kind, sizes[1])}, Note: fmt.Sprintf("scaling kind=%d", kind)}
+				r.Report(c, "superlinear", "nesting family %d: n=%d took %v CPU, n=%d took %v CPU in three measurements (more than x160)", kind, sizes[0], ts[0], sizes[1], ts[1])
 			}
 			r.Extra(fmt.Sprintf("scaling_kind%d_cpu_ms_400_1600", kind), fmt.Sprintf("%d/%d", ts[0].Milliseconds(), ts[1].Milliseconds()))
 		}
 	}
+}
+
+// c17Diamond declares the layered diamond embedding of gen.HostileNest(10, n) through the API and
+// looks up a member that is declared nowhere; it returns a description of a run-time fault, if any.
+func c17Diamond(n int) (fault string) {
+	pkg := gogen.NewPackage("", "main", &gogen.Config{Importer: oracle.Importer()})
+	intT := types.Typ[types.Int]
+	emb := func(ts ...types.Type) *types.Struct {
+		var fs []*types.Var
+		for _, t := range ts {
+			fs = append(fs, types.NewField(token.NoPos, pkg.Types, t.(*types.Named).Obj().Name(), t, true))
+		}
+		return types.NewStruct(fs, nil)
+	}
+	prev := types.Type(pkg.NewType("T0").InitType(pkg, types.NewStruct([]*types.Var{types.NewField(token.NoPos, pkg.Types, "a0", intT, false)}, nil)))
+	for i := 1; i <= n; i++ {
+		u := pkg.NewType(fmt.Sprintf("U%d", i)).InitType(pkg, emb(prev))
+		v := pkg.NewType(fmt.Sprintf("V%d", i)).InitType(pkg, emb(prev))
+		prev = pkg.NewType(fmt.Sprintf("T%d", i)).InitType(pkg, emb(u, v))
+	}
+	defer func() {
+		if e := recover(); e != nil {
+			if k := drive.ClassifyPanic(e); k == "runtime" || k == "other" {
+				fault = fmt.Sprintf("run-time fault in the member lookup: %v", e)
+			}
+		}
+	}()
+	cb := pkg.NewFunc(nil, "f", nil, nil, false).BodyStart(pkg)
+	cb.NewVar(prev, "vt")
+	cb.VarVal("vt").MemberVal("nosuch", 0)
+	return ""
 }
